@@ -167,6 +167,7 @@ def to_scenario(case):
             rq["conn_id"] = str(ci)
         _stream, segs = build_segments(c["reqs"], c.get("cuts", []))
         sc["conns"].append({"segments": segs, "capacity": c.get("capacity"), "drain": c.get("drain", "all"),
+                            "drain_stop_after": c.get("stop_after"), "drain_resume": True,
                             "waits": [None] + ["continue" if c.get("wait_continue") else None] * (len(segs) - 1)})
     return sc
 
@@ -270,14 +271,35 @@ def expect_cut(reqs):
 
 E1 = [{"method": "GET"}, {"method": "POST", "body": "abc", "expect": True}]
 E2 = [{"method": "GET"}, {"method": "GET"}, {"method": "POST", "body": "x" * 50, "expect": True}, {"method": "GET"}]
+def _big(n1, n2, rx):
+    """a response of n1 + n2 kB produced in 1 kB pieces; after n1 pieces the application waits until the client has received rx bytes"""
+    ch = [("%x" % (i % 16)) * 1000 for i in range(n1 + n2)]
+    return {"status": "200 OK", "mode": "gen", "chunks": ch, "declared_cl": 1000 * (n1 + n2), "pause_after": n1, "pause_until_rx": rx}
+
+
 E3 = [{"method": "GET"}, {"method": "POST", "body": "abc", "expect": True}, {"method": "GET"}]
 _e3 = expect_cut(E3)[0]
+PB = {"status": "200 OK", "mode": "gen", "chunks": ["ab"] * 4, "declared_cl": 8, "pause_after": 2, "pause_until_rx": 100}
+_RC = [{"method": "GET", "conn": "close"}, {"method": "GET"}]
 FIXED = [
+    # the response to the first request closes the connection; the second request arrives in a read of its own while the first is still
+    # being produced (read-ahead on, the application waits for the client in mid-response): one deviation from the default schedule puts
+    # the I/O thread between "is this connection closing?" and the lock while the worker takes the close decision
+    {"conns": [{"reqs": _RC, "cuts": [len(build_segments([dict(_RC[0], conn_id="0")], [])[0])]}], "apps": [PB, B_SMALL],
+     "adj": {"threads": 1, "channel_request_lookahead": 1}},
+    {"conns": [{"reqs": _RC, "cuts": [len(build_segments([dict(_RC[0], conn_id="0")], [])[0])]}], "apps": [PB, B_SMALL],
+     "adj": {"threads": 2, "channel_request_lookahead": 2}},
+    # an output buffer that is partly sent while it sits in its in-memory-file stage (> 8 KiB queued) and then grows past outbuf_overflow:
+    # the move to a temporary file has to carry the read position over; a pipelined request follows on the same connection
+    {"conns": [{"reqs": [{"method": "GET"}, {"method": "GET"}], "cuts": [], "capacity": 500, "drain": 500, "stop_after": 100}],
+     "apps": [_big(9, 14, 1100), B_SMALL], "adj": {"threads": 1, "outbuf_overflow": 12000}, "heavy": True},
+    {"conns": [{"reqs": [{"method": "GET"}, {"method": "GET"}], "cuts": [], "capacity": 700, "drain": 300}],
+     "apps": [_big(10, 10, 1500), B_SMALL], "adj": {"threads": 2, "outbuf_overflow": 9000}, "heavy": True},
     # a client that does not wait for 100 Continue: header block, then body + the start of a further request, then the rest; a second
     # connection keeps the loop turning, so that the first one's readability is re-evaluated at arbitrary moments
     {"conns": [{"reqs": E3, "cuts": [_e3, _e3 + 3 + 12], "wait_continue": False},
                {"reqs": [{"method": "GET"}, {"method": "GET"}, {"method": "GET"}], "cuts": list(range(8, 130, 8))}],
-     "apps": [B8], "adj": {"threads": 3}, "stall_runs": 500},
+     "apps": [B8], "adj": {"threads": 3}, "stall_runs": 700, "stall_params": {"est_hot": [25, 30, 35, 40], "max_dur": [20, 30, 45, 60]}},
     {"conns": [{"reqs": E3, "cuts": [_e3, _e3 + 3 + 12], "wait_continue": False}], "apps": [B2], "adj": {"threads": 2}},
     {"conns": [{"reqs": E1, "cuts": expect_cut(E1), "wait_continue": True, "capacity": 8, "drain": 8}], "apps": [B_SMALL], "adj": {"threads": 1}},
     {"conns": [{"reqs": E1, "cuts": expect_cut(E1), "wait_continue": True}], "apps": [B_SMALL], "adj": {"threads": 2, "channel_request_lookahead": 1}},
